@@ -350,7 +350,9 @@ impl Jet {
         let mut o = Jet::constant(f0, n);
         let (a1, a2, a3) = (f1.abs(), f2.abs(), f3.abs());
         o.vmag = f0.abs() + a1 * u.vmag;
-        o.vl = f0.abs() + a1 * u.vl + a2 * u.vl * u.vl;
+        // (third order: where f' = f'' = 0 - a cube at an exactly-zero base - the error of the argument
+        // enters cubed; folded in with a factor that turns the eps^2 scale of `vl` into eps^3)
+        o.vl = f0.abs() + a1 * u.vl + a2 * u.vl * u.vl + 1e-13 * a3 * u.vl * u.vl * u.vl / 6.0;
         o.va = a1 * u.va;
         for i in 0..n {
             o.ga[i] = a1 * u.ga[i] + a2 * u.va * u.g[i].abs();
